@@ -319,6 +319,13 @@ pub struct Sim {
     /// frame injections written into packets (`Connection::verif_take_injected`), collected after every
     /// poll_transmit: (node, connection handle, space, packet number, bytes written)
     pub inj_log: Vec<(usize, usize, u8, u64, usize)>,
+    /// record per-packet meta data of every packet built (hook `verif_txmeta`, read with `verif_take_txpkts`)
+    pub record_meta: bool,
+    /// hook: called right before a connection services its timers (`handle_timeout`): (sim, node, connection handle)
+    pub timeout_tap: Option<Box<dyn FnMut(&mut Sim, usize, usize)>>,
+    /// hook: called for every Transmit with the snapshot taken before that `poll_transmit`:
+    /// (sim, node, connection handle, snapshot before, transmit, buffer)
+    pub tx_tap: Option<Box<dyn FnMut(&mut Sim, usize, usize, &Snapshot, &quinn_proto::Transmit, &[u8])>>,
     /// C07: per-destination ledger with the harness' own notion of validated addresses (`crate::ledger`)
     pub ledger: crate::ledger::DestLedger,
 }
@@ -424,6 +431,9 @@ impl Sim {
             model_impl: Vec::new(),
             rx_tap: None,
             inj_log: Vec::new(),
+            record_meta: false,
+            timeout_tap: None,
+            tx_tap: None,
             ledger: Default::default(),
         }
     }
@@ -450,6 +460,9 @@ impl Sim {
         let mut conn = conn;
         if self.record_plain {
             conn.verif_txlog_enable();
+        }
+        if self.record_meta {
+            conn.verif_txmeta_enable();
         }
         self.nodes[CLIENT].conns.insert(ch.0, new_nc(conn));
         ch.0
@@ -677,6 +690,9 @@ impl Sim {
                 if self.record_plain {
                     conn.verif_txlog_enable();
                 }
+                if self.record_meta {
+                    conn.verif_txmeta_enable();
+                }
                 self.nodes[node].conns.insert(ch.0, new_nc(conn));
                 self.nodes[node].accepted.push(ch.0);
             }
@@ -702,6 +718,10 @@ impl Sim {
         };
         let extra = spurious > 0 && self.drv_rng.below(1000) < spurious;
         if due || extra {
+            if let Some(mut f) = self.timeout_tap.take() {
+                f(self, node, ch);
+                self.timeout_tap = Some(f);
+            }
             let before = if self.model_trace { Some(self.nodes[node].conns[&ch].conn.verif_snapshot()) } else { None };
             if let Some(b) = &before {
                 // TimerTable::next_timeout against the table itself
@@ -904,6 +924,10 @@ impl Sim {
                 self.fail("timeout-settle-not-reached", format!("node {node} conn {ch}: poll_timeout still <= now after {rounds} rounds of handle_timeout/poll_transmit"));
                 break;
             }
+            if let Some(mut f) = self.timeout_tap.take() {
+                f(self, node, ch);
+                self.timeout_tap = Some(f);
+            }
             self.nodes[node].conns.get_mut(&ch).unwrap().conn.handle_timeout(now);
             let next = self.nodes[node].conns[&ch].conn.poll_timeout().map(|t| t.saturating_duration_since(self.base).as_nanos() as u64);
             self.trace.push(Rec::Timeout { node, ch, at: nowoff, next });
@@ -980,6 +1004,10 @@ impl Sim {
     /// Oracles on every transmit (sizes, amplification, silence after drain).
     fn on_transmit(&mut self, node: usize, ch: usize, before: &Snapshot, t: &quinn_proto::Transmit, _buf: &[u8]) {
         let nowoff = self.now;
+        if let Some(mut f) = self.tx_tap.take() {
+            f(self, node, ch, before, t, _buf);
+            self.tx_tap = Some(f);
+        }
         if self.record_plain {
             for l in self.nodes[node].conns.get_mut(&ch).unwrap().conn.verif_take_txlog() {
                 self.plain.push(format!("n{node} c{ch} {l}"));
